@@ -192,10 +192,13 @@ claim(
     'HTML"; (R4) the :lang() value list is tiled by RE_VALUES and decoded once; (R5) lang vs xml:lang is chosen per ancestor; (R6) '
     'decision tables: the language found for an element (nearest lang attribute incl. the empty one, else the first meta carrying '
     'both http-equiv=content-language and a non-empty content, in any attribute order and letter case, with list-valued attributes '
-    'around) and the logic of a compound (every :lang() must match, each through at least one range). Not decided: RFC 4647 '
-    'extended filtering itself (extended_language_filter), including the known trailing "-*" defect.',
-    'extended_language_filter is an algorithm over subtag sequences of unbounded length.',
-    'sentinel-consistency rule over mypy types + ' + PE + ' + string provenance',
+    'around) and the logic of a compound (every :lang() must match, each through at least one range); (R7, bounded) '
+    'extended_language_filter - its wildcard normalisation regex followed with the analyser\'s own matcher over the regex source - '
+    'agrees with RFC 4647 extended filtering on all 7743 (range, tag) pairs over ranges of up to three and tags of up to three '
+    '(thorough: four) subtags from small alphabets incl. wildcards, singletons, the empty range / tag and case variants. Not '
+    'decided: the filter on subtag sequences of arbitrary length.',
+    'The trailing "-*" defect named in the property text was found by R7 and repaired (08e3efc).',
+    'sentinel-consistency rule over mypy types + ' + PE + ' + string provenance + bounded table with a regex matcher over re._parser trees',
 )
 
 claim(
@@ -286,8 +289,11 @@ claim(
     'self.pattern and the position its message names, never a position taken from a group that may not have taken part; (R4) '
     'statements under the debug flag only print and DEBUG does not change how the top-level list is handed to the parser; (R5) the '
     'error constructor derives line/column/context exactly when pattern and index are given (None-ness, not truthiness) and the '
-    'message carries them; (R6) lines are delimited by LF, CR, CRLF only. Not decided: the line/column arithmetic of '
-    'get_pattern_context (incl. the known end-of-pattern defect) and equality of pretty() output with repr.',
+    'message carries them; (R6) lines are delimited by LF, CR, CRLF only; (R7, bounded) get_pattern_context - its line splitter '
+    'followed with the analyser\'s own matcher - gives line = 1 + line breaks before the offset, column = offset within the line + 1 '
+    'and a caret under that column for every offset 0..len of nine short patterns covering LF, CR, CRLF, leading / trailing / '
+    'double breaks and the empty pattern. Not decided: equality of pretty() output with repr; get_pattern_context on arbitrary '
+    'patterns (the table is bounded).',
     '',
     'scanner progress by ' + PE + ' + regex ambiguity analysis + raise-site agreement + debug effect rule',
 )
